@@ -103,7 +103,7 @@ static void sigv(int f, const char *kind, const char *cls, const uint8_t *t, siz
 // one text (NUL-free bytes t[0..len) + terminator), one base, all six strto*; with_end=false passes endptr=NULL
 static void check_text(const uint8_t *t, size_t len, int base, bool with_end = true)
 {
-    uint8_t buf[96];
+    uint8_t buf[1400];
     memcpy(buf, t, len);
     buf[len] = 0;
     const char *pi = (const char *)TI.put(buf, len + 1, PL), *pr = (const char *)TR.put(buf, len + 1, PL);
@@ -135,7 +135,7 @@ static void check_text(const uint8_t *t, size_t len, int base, bool with_end = t
 // atoi/atol: ISO defines them as (int)strtol(s,NULL,10) / strtol(s,NULL,10) and leaves unrepresentable results undefined
 static void check_ato(const uint8_t *t, size_t len)
 {
-    uint8_t buf[96];
+    uint8_t buf[1400];
     memcpy(buf, t, len);
     buf[len] = 0;
     const char *pi = (const char *)TI.put(buf, len + 1, PL), *pr = (const char *)TR.put(buf, len + 1, PL);
@@ -344,6 +344,51 @@ MC_INIT
                                 if (b == 10)
                                     check_ato((const uint8_t *)s.data(), s.size());
                             }
+        end_case();
+    });
+
+    // (4) LONG texts: 255..300 digits / leading spaces / leading zeros (a digit counter or offset narrowed to 8 bits
+    //     is invisible in short texts): overflow clamping with the end pointer after the last digit, values after
+    //     300 leading zeros or white-space characters
+    mc::add_check("strto_long_texts", [] {
+        begin_case();
+        static const int DS[4] = {255, 256, 257, 300};
+        static const char *TL[3] = {"", "!", "g"};
+        int c0 = mc::choose(4 * 12 * 3);
+        int D = DS[c0 / 36], form = (c0 / 3) % 12;
+        const char *tl = TL[c0 % 3];
+        std::string z(D, '0'), sp(D, ' '), s;
+        switch (form)
+        {
+        case 0: s = std::string(D, '9'); break;
+        case 1: s = "-" + std::string(D, '9'); break;
+        case 2: s = "1" + std::string(D - 1, '0'); break;
+        case 3: s = z + "777"; break;
+        case 4: s = sp + "123"; break;
+        case 5: s = sp + "-" + z + "9223372036854775808"; break;
+        case 6: s = "0x" + std::string(D, 'f'); break;
+        case 7: s = "0x" + z + "7fffffffffffffff"; break;
+        case 8: s = std::string(D, '1'); break;
+        case 9: s = std::string(D, 'z'); break;
+        case 10: s = z + "x1f"; break;
+        default: s = std::string(D / 2, '\t') + std::string(D - D / 2, '\n') + "+" + z + "18446744073709551615"; break;
+        }
+        s += tl;
+        mc::describe("text of %zu characters (%d-fold run, form %d, tail \"%s\"), bases 0,2,8,10,16,36, 6 strto* with and without endptr + atoi/atol, before/after guard", s.size(), D, form, tl);
+        mc::nontrivial();
+        W = 1024;
+        for (PL = AFTER; PL <= BEFORE; PL++)
+        {
+            for (int b : {0, 2, 8, 10, 16, 36})
+            {
+                check_text((const uint8_t *)s.data(), s.size(), b, true);
+                check_text((const uint8_t *)s.data(), s.size(), b, false);
+            }
+            check_ato((const uint8_t *)s.data(), s.size());
+        }
+        W = W_SMALL;
+        TI.wipe();
+        TR.wipe();
         end_case();
     });
 }
